@@ -31,7 +31,7 @@ fn carried_over_requests_keep_their_order_across_repeated_failures() {
             cases += 1;
             let mut el = @NEW@;
             let mut issued = 0u8;
-            let mut acked = 0u8; // tags 1..=acked are acknowledged
+            let mut acked: Vec<u8> = vec![]; // tags acknowledged so far (the MQTT 5 client may resend, and so have acknowledged, out of issue order)
             let mut max_sent = 0u8; // tags 1..=max_sent have been handed to the state machine at least once
             let mut in_flight: std::collections::VecDeque<(u8, u16)> = Default::default();
             let mut script = String::new();
@@ -78,16 +78,16 @@ fn carried_over_requests_keep_their_order_across_repeated_failures() {
                             fail = Some(format!("input=[inflight={} script={}] detail=[in-order PUBACK rejected]", inflight, script));
                             break 'outer;
                         }
-                        acked = tag;
+                        acked.push(tag);
                     }
                     _ => {
                         script.push_str("FAIL+resume ");
                         el.clean();
                         // publishes that have been on the wire at least once and are not acknowledged
-                        let resent = (acked + 1..=issued).filter(|t| *t <= max_sent).count();
+                        let resent = (1..=issued).filter(|t| !acked.contains(t) && *t <= max_sent).count();
                         in_flight.clear();
                         let mut got: Vec<u8> = el.pending.iter().filter_map(vn_tag).collect();
-                        let want: Vec<u8> = (acked + 1..=issued).collect();
+                        let want: Vec<u8> = (1..=issued).filter(|t| !acked.contains(t)).collect();
                         // the send-order clause of C11 is stated for the MQTT 3.1.1 client only: for the MQTT 5 client the
                         // publishes that were in flight may come back in any order, but before everything issued afterwards
                         if !@ORDERED@ && got.len() >= resent {
